@@ -20,6 +20,7 @@ CONSTANTS N,          \* lifecycler identities 1..N
           HbTimeout,  \* ring heartbeat timeout (readiness)
           MaxClock,   \* bound of the virtual clock (model checking only)
           Cfgs,       \* set of configurations a lifecycler may be started with
+          Cfg0,       \* set of initial assignments Inst -> Cfgs (model checking: a restart keeps the configuration)
           Bud0        \* budgets of the environment actions (model checking only)
 
 Inst == 1..N
@@ -57,7 +58,21 @@ L0 == [phase |-> "off", st |-> "PENDING", toks |-> {}, reg |-> 0, ro |-> FALSE, 
        pc |-> "idle", arg |-> "", res |-> "none", fresh |-> FALSE]
 
 Due(t) == t >= 0 /\ t <= clock
+\* model checking only: the environment acts up to time Bud0.envBy (liveness needs a quiet suffix)
+EnvOK == clock <= Bud0.envBy
 Arm(p) == IF p > 0 THEN clock + p ELSE -1
+
+\* a lifecycler that still has something to do at the current instant
+Busy(i) == LET l == L[i] IN
+    \/ l.phase \in {"init", "stopreq"}
+    \/ l.pc # "idle" \/ l.res # "none"
+    \/ l.phase = "run" /\ (Due(l.joinAt) \/ Due(l.obsAt) \/ Due(l.nextHb))
+    \/ l.phase = "observing" /\ (Due(l.obsAt) \/ Due(l.nextHb))
+    \/ l.phase = "stopping" /\ (Due(l.stopAt) \/ Due(l.nextHb))
+
+\* the environment (the driver) acts at quiescent points only; time advances only when every
+\* lifecycler has done what was due (the bubble clock)
+Calm == \A k \in Inst : ~Busy(k)
 
 Put(i, e) == ring' = [ring EXCEPT ![i] = e] /\ rnil' = FALSE
 SetL(i, r) == L' = [L EXCEPT ![i] = r]
@@ -65,7 +80,7 @@ FileSet(i, toks) == file' = IF cfg[i].file THEN [file EXCEPT ![i] = toks] ELSE f
 
 Init == /\ ring = [j \in Inst |-> Absent] /\ rnil = TRUE /\ clock = 0
         /\ file = [j \in Inst |-> {}] /\ kvok = [j \in Inst |-> TRUE]
-        /\ cfg \in [Inst -> Cfgs] /\ L = [j \in Inst |-> L0]
+        /\ cfg \in Cfg0 /\ L = [j \in Inst |-> L0]
         /\ okSince = [j \in Inst |-> 0] /\ bud = Bud0 /\ actor = 0
 
 (***************************************************************************)
@@ -94,7 +109,7 @@ Classic(i) == cfg[i].kind = "classic"
 
 (******************************* start ***********************************)
 Start(i, c) ==
-    /\ L[i].phase \in {"off", "dead"} /\ bud.start > 0
+    /\ L[i].phase \in {"off", "dead"} /\ bud.start > 0 /\ EnvOK /\ Calm
     /\ cfg' = [cfg EXCEPT ![i] = c]
     /\ SetL(i, [L0 EXCEPT !.phase = "init"])
     /\ bud' = [bud EXCEPT !.start = @ - 1] /\ actor' = 0
@@ -229,7 +244,7 @@ Heartbeat(i) ==
 (**************************** external calls *****************************)
 \* the environment hands a call to the actor goroutine (pc), the lifecycler executes it (Do...)
 Request(i, op, a) ==
-    /\ L[i].phase = "run" /\ L[i].pc = "idle" /\ L[i].res = "none" /\ bud.ext > 0
+    /\ L[i].phase = "run" /\ Calm /\ bud.ext > 0 /\ EnvOK
     /\ SetL(i, [L[i] EXCEPT !.pc = op, !.arg = a])
     /\ bud' = [bud EXCEPT !.ext = @ - 1] /\ actor' = 0
     /\ UNCHANGED <<ring, rnil, clock, file, kvok, cfg, okSince>>
@@ -285,14 +300,14 @@ ReadyCond(i) ==
             /\ AllToks # {}
        ELSE Present(i) /\ Healthy(ring[i]) /\ ring[i].st = "ACTIVE"
 CheckReady(i) ==
-    /\ L[i].phase \in {"run", "stopping"} /\ Classic(i) /\ L[i].pc = "idle" /\ bud.ready > 0
+    /\ L[i].phase \in {"run", "stopping"} /\ Classic(i) /\ Calm /\ bud.ready > 0
     /\ SetL(i, [L[i] EXCEPT !.ready = @ \/ ReadyCond(i)])
     /\ bud' = [bud EXCEPT !.ready = @ - 1] /\ actor' = 0
     /\ UNCHANGED <<ring, rnil, clock, file, kvok, cfg, okSince>>
 
 (******************************* shutdown ********************************)
 StopReq(i) ==
-    /\ L[i].phase = "run" /\ Classic(i) /\ L[i].pc = "idle" /\ L[i].res = "none" /\ bud.stop > 0
+    /\ L[i].phase = "run" /\ Classic(i) /\ Calm /\ bud.stop > 0 /\ EnvOK
     /\ SetL(i, [L[i] EXCEPT !.phase = IF L[i].st = "ACTIVE" THEN "stopreq" ELSE "stopping",
                             !.joinAt = -1, !.obsAt = -1,
                             !.nextHb = Arm(cfg[i].hb), !.stopAt = clock + cfg[i].fsleep])
@@ -320,34 +335,25 @@ FinishStop(i) ==
     /\ actor' = i /\ UNCHANGED <<ring, rnil, clock, file, kvok, cfg, okSince, bud>>
 
 (***************************** environment *******************************)
-Busy(i) == LET l == L[i] IN
-    \/ l.phase \in {"init", "stopreq"}
-    \/ l.pc # "idle"
-    \/ l.phase = "run" /\ (Due(l.joinAt) \/ Due(l.obsAt) \/ Due(l.nextHb))
-    \/ l.phase = "observing" /\ (Due(l.obsAt) \/ Due(l.nextHb))
-    \/ l.phase = "stopping" /\ (Due(l.stopAt) \/ Due(l.nextHb))
-
 \* time advances only when every lifecycler has done what was due (the bubble clock)
-Tick == /\ clock < MaxClock /\ \A i \in Inst : ~Busy(i)
+Tick == /\ clock < MaxClock /\ Calm
         /\ clock' = clock + 1 /\ actor' = 0
         /\ UNCHANGED <<ring, rnil, file, kvok, cfg, L, okSince, bud>>
 
-Quiet == \A i \in Inst : ~Busy(i) /\ L[i].res = "none"
-
-Wipe == /\ bud.wipe > 0 /\ Quiet
+Wipe == /\ bud.wipe > 0 /\ Calm /\ EnvOK
         /\ ring' = [j \in Inst |-> Absent] /\ rnil' = TRUE
         /\ okSince' = [j \in Inst |-> clock]
         /\ bud' = [bud EXCEPT !.wipe = @ - 1] /\ actor' = 0
         /\ UNCHANGED <<clock, file, kvok, cfg, L>>
 
-SetKV(i, b) == /\ bud.kv > 0 /\ Quiet /\ kvok[i] # b
+SetKV(i, b) == /\ bud.kv > 0 /\ Calm /\ EnvOK /\ kvok[i] # b
                /\ kvok' = [kvok EXCEPT ![i] = b]
                /\ okSince' = [okSince EXCEPT ![i] = clock]
                /\ bud' = [bud EXCEPT !.kv = @ - 1] /\ actor' = 0
                /\ UNCHANGED <<ring, rnil, clock, file, cfg, L>>
 
 \* the process dies: everything volatile is lost, ring and tokens file stay
-Crash(i) == /\ bud.crash > 0 /\ L[i].phase \notin {"off", "dead"}
+Crash(i) == /\ bud.crash > 0 /\ EnvOK /\ L[i].phase \notin {"off", "dead"}
             /\ SetL(i, [L0 EXCEPT !.phase = "dead"])
             /\ bud' = [bud EXCEPT !.crash = @ - 1] /\ actor' = 0
             /\ UNCHANGED <<ring, rnil, clock, file, kvok, cfg, okSince>>
@@ -376,7 +382,7 @@ MidFiles(i) ==
     ELSE {}
 
 CrashMid(i, F) ==
-    /\ bud.crash > 0 /\ kvok[i] /\ F \in MidFiles(i)
+    /\ bud.crash > 0 /\ EnvOK /\ kvok[i] /\ F \in MidFiles(i)
     /\ file' = [file EXCEPT ![i] = F]
     /\ SetL(i, [L0 EXCEPT !.phase = "dead"])
     /\ bud' = [bud EXCEPT !.crash = @ - 1] /\ actor' = 0
